@@ -77,6 +77,12 @@ def build_harness(ctx):
     """(Re)build vharness from /verif/harness against /repo's working tree with -tags verif."""
     if "bin" in _built:
         return _built["bin"]
+    gm = os.path.join(HARNESS, "go.mod")
+    txt = open(gm).read()
+    want = "replace github.com/zen-eth/shisui => %s\n" % REPO
+    cur = re.search(r"replace github\.com/zen-eth/shisui => \S+\n", txt)
+    if cur and cur.group(0) != want:      # VERIF_REPO points at a snapshot of the repository (background runs)
+        open(gm, "w").write(txt.replace(cur.group(0), want))
     shutil.copyfile(os.path.join(REPO, "go.sum"), os.path.join(HARNESS, "go.sum"))
     extra = os.path.join(HARNESS, "go.sum.extra")
     if os.path.exists(extra):
